@@ -780,7 +780,7 @@ Definition P_node2 (n : node) : Prop :=
     (sz2 n <= f)%nat ->
     Forall2 tmatch ts (main_sh ml idnum D n) ->
     ptoks st = ts ++ rest -> pbdepth st = 0 ->
-    ends_block (ind_count (S D)) rest ->
+    (is_container n = true -> ends_block (ind_count (S D)) rest) ->
     exists st' tail, psec f leading st = POk (Some (set_lead n leading)) st' /\ ptoks st' = tail ++ rest /\
                      tail_ok n tail /\ sext st st'.
 
@@ -864,7 +864,7 @@ Proof.
     pose proof (ends_after_child d cs ts2 rest Hts2 Hend) as Hend'.
     assert (Hd1 : pbdepth (adv sta) = 0) by (rewrite adv_depth; exact Hda).
     destruct (HPc Hcc Hnc (S d) f1 (lead_of c) (adv sta) (tb :: tm') (ts2 ++ rest)) as (st1 & tail & Hp & Hst1 & Htail & W1);
-      [lia|exact Htm|rewrite <- app_comm_cons; exact H1|exact Hd1|exact Hend'|].
+      [lia|exact Htm|rewrite <- app_comm_cons; exact H1|exact Hd1|intros _; exact Hend'|].
     rewrite set_lead_id in Hp.
     rewrite bloop_eq. cbv zeta.
     assert (HK : tkind_eqb (tk tb) EOF = false /\ tkind_eqb (tk tb) ENVELOPE_END = false /\ tkind_eqb (tk tb) INDENT = false /\
@@ -952,7 +952,7 @@ Proof.
     pose proof (ends_after_child d cs ts2 rest Hts2 Hend) as Hend'.
     assert (Hd1 : pbdepth (adv sta) = 0) by (rewrite adv_depth; exact Hda).
     destruct (HPc Hcc Hnc (S d) f1 (lead_of c) (adv sta) (tb :: tm') (ts2 ++ rest)) as (st1 & tail & Hp & Hst1 & Htail & W1);
-      [lia|exact Htm|rewrite <- app_comm_cons; exact H1|exact Hd1|exact Hend'|].
+      [lia|exact Htm|rewrite <- app_comm_cons; exact H1|exact Hd1|intros _; exact Hend'|].
     rewrite set_lead_id in Hp.
     rewrite sloop_eq. cbv zeta.
     assert (HK : tkind_eqb (tk tb) EOF = false /\ tkind_eqb (tk tb) ENVELOPE_END = false /\ tkind_eqb (tk tb) INDENT = false /\
@@ -1014,7 +1014,7 @@ Qed.
 
 Lemma P_block k tg ch l : Forall P_node2 ch -> P_node2 (NBlock k tg ch l).
 Proof.
-  unfold P_node2 at 2. intros IH Hcore Hnum D f leading st ts rest Hf Hts Hst Hdep Hend.
+  unfold P_node2 at 2. intros IH Hcore Hnum D f leading st ts rest Hf Hts Hst Hdep Hend. specialize (Hend eq_refl).
   cbn [core2_node] in Hcore. destruct tg; [discriminate|].
   apply andb_prop in Hcore. destruct Hcore as [Hne Hcc].
   rewrite nums_ok2_block in Hnum. rewrite sz2_block in Hf.
@@ -1053,6 +1053,22 @@ Proof.
 Qed.
 
 (* ---- section markers ------------------------------------------------------------------------------------------------------ *)
+Lemma capture_eq f depth acc st :
+  capture_brackets (S f) depth acc st =
+      if (0 <? depth) && negb (is EOF st) then
+        let k := ck st in
+        if tkind_eqb k LIST_START then capture_brackets f (depth + 1) ([c_lbr] :: acc) (adv st)
+        else if tkind_eqb k LIST_END then
+          capture_brackets f (depth - 1) (if 0 <? depth - 1 then [c_rbr] :: acc else acc) (adv st)
+        else if tkind_eqb k COMMA then capture_brackets f depth ([c_comma] :: acc) (adv st)
+        else if kin k [COMMENT; NEWLINE; INDENT] then capture_brackets f depth acc (adv st)
+        else match tok_to_str (cur st) with
+             | Some s => capture_brackets f depth (s :: acc) (adv st)
+             | None => POut 1
+             end
+      else POk (rev acc) st.
+Proof. reflexivity. Qed.
+
 Lemma annot_read a st ts tn r :
   Forall2 tmatch ts (annot_sh a) -> ptoks st = ts ++ tn :: r -> tk tn = NEWLINE -> r <> [] ->
   exists st', consume_annotation true st = POk a st' /\ ptoks st' = tn :: r /\ sext st st'.
@@ -1064,11 +1080,11 @@ Proof.
     pose proof (adv_toks _ _ _ _ Hst) as H1. pose proof (adv_toks _ _ _ _ H1) as H2.
     destruct r as [|t0 r0]; [congruence|]. pose proof (adv_toks _ _ _ _ H2) as H3.
     rewrite (fuel_of_toks _ _ Hst). cbn [length].
-    cbn [capture_brackets]. change (0 <? 1) with true. is_step H1 HXk. unfold ck. rewrite (cur_hd _ _ _ H1), HXk.
-    cbn [tkind_eqb tkind_code N.eqb Pos.eqb kin existsb orb]. unfold tok_to_str. rewrite HXk, HXv.
-    cbn [capture_brackets]. change (0 <? 1) with true. is_step H2 HRk. unfold ck. rewrite (cur_hd _ _ _ H2), HRk.
-    cbn [tkind_eqb tkind_code N.eqb Pos.eqb kin existsb orb]. change (1 - 1) with 0. change (0 <? 0) with false. cbv iota.
-    cbn [capture_brackets]. change (0 <? 0) with false. cbn [andb bind rev app concat]. rewrite app_nil_r.
+    rewrite capture_eq. change (0 <? 1) with true. cbv zeta. unfold ck at 1 2 3 4. rewrite (is_hd _ _ _ _ H1), (cur_hd _ _ _ H1), HXk.
+    cbn [tkind_eqb tkind_code N.eqb Pos.eqb kin existsb orb andb negb]. unfold tok_to_str. rewrite HXk, HXv.
+    rewrite capture_eq. change (0 <? 1) with true. cbv zeta. unfold ck at 1 2 3 4. rewrite (is_hd _ _ _ _ H2), (cur_hd _ _ _ H2), HRk.
+    cbn [tkind_eqb tkind_code N.eqb Pos.eqb kin existsb orb andb negb]. change (1 - 1) with 0. change (0 <? 0) with false. cbv iota.
+    rewrite capture_eq. change (0 <? 0) with false. cbn [andb bind rev app concat]. rewrite app_nil_r.
     eexists. split; [reflexivity|]. split; [exact H3|]. sadv.
   - inversion Hts; subst. cbn [app] in Hst. is_step Hst Hn. exists st. split; [reflexivity|]. split; [exact Hst|apply sext_refl].
 Qed.
@@ -1103,7 +1119,7 @@ Qed.
 
 Lemma P_section i k a ch l : Forall P_node2 ch -> P_node2 (NSection i k a ch l).
 Proof.
-  unfold P_node2 at 2. intros IH Hcore Hnum D f leading st ts rest Hf Hts Hst Hdep Hend.
+  unfold P_node2 at 2. intros IH Hcore Hnum D f leading st ts rest Hf Hts Hst Hdep Hend. specialize (Hend eq_refl).
   cbn [core2_node] in Hcore. apply andb_prop in Hcore. destruct Hcore as [Han Hcore].
   apply andb_prop in Hcore. destruct Hcore as [Hne Hcc].
   rewrite nums_ok2_section in Hnum. destruct Hnum as [Hid Hnum]. rewrite sz2_section in Hf.
@@ -1154,4 +1170,564 @@ Proof.
   - intros t Hcore; discriminate Hcore.
 Qed.
 
+
+
+(* ---- document level ------------------------------------------------------------------------------------------------------ *)
+Lemma lead_sh_len_S D cs : length (lead_sh (S D) cs) = (3 * length cs)%nat.
+Proof. induction cs as [|c cs IH]; [reflexivity|]. rewrite lead_sh_cons, !app_length. unfold sh in *. rewrite IH. cbn [indent_sh length]. lia. Qed.
+Lemma lead_sh_len_0 cs : length (lead_sh 0 cs) = (2 * length cs)%nat.
+Proof. induction cs as [|c cs IH]; [reflexivity|]. rewrite lead_sh_cons, !app_length. unfold sh in *. rewrite IH. cbn [indent_sh length]. lia. Qed.
+
+Lemma main_len_pos D n : core2_node n = true -> (3 <= length (main_sh ml idnum D n))%nat.
+Proof.
+  destruct n; cbn [core2_node]; try discriminate; intros _; cbn [main_sh]; rewrite !app_length; cbn [length]; lia.
+Qed.
+
+Lemma node_sh2_len D c : length (node_sh2 ml idnum (S D) c) = (3 * length (lead_of c) + 1 + length (main_sh ml idnum (S D) c))%nat.
+Proof. unfold node_sh2. rewrite !app_length, lead_sh_len_S. cbn [indent_sh length]. lia. Qed.
+
+Lemma lsz2_le_len ch D :
+  Forall (fun n => forall D, core2_node n = true -> (sz2 n + 3 <= 3 * length (main_sh ml idnum D n))%nat) ch ->
+  forallb core2_node ch = true -> (lsz2 ch <= 1 + 3 * length (nodes_sh2 ml idnum (S D) ch))%nat.
+Proof.
+  induction ch as [|c cs IH]; intros H Hcc; [cbn; lia|].
+  inversion H as [|? ? Hc Hcs]; subst. cbn [forallb] in Hcc. apply andb_prop in Hcc. destruct Hcc as [Hcc1 Hcc2].
+  cbn [lsz2 nodes_sh2 flat_map]. rewrite app_length, node_sh2_len.
+  specialize (Hc (S D) Hcc1). specialize (IH Hcs Hcc2). unfold nodes_sh2 in IH. unfold sh in *. lia.
+Qed.
+
+Lemma sz2_le_len n : forall D, core2_node n = true -> (sz2 n + 3 <= 3 * length (main_sh ml idnum D n))%nat.
+Proof.
+  induction n using node_ind2; intros D Hc; cbn [core2_node] in Hc; try discriminate Hc.
+  - cbn [sz2 main_sh]. rewrite !app_length. cbn [length]. lia.
+  - destruct t; [discriminate|]. apply andb_prop in Hc. destruct Hc as [_ Hcc].
+    rewrite sz2_block, main_sh_block. rewrite !app_length. cbn [length].
+    pose proof (lsz2_le_len ch D H Hcc). unfold sh in *. lia.
+  - apply andb_prop in Hc. destruct Hc as [_ Hc]. apply andb_prop in Hc. destruct Hc as [_ Hcc].
+    rewrite sz2_section, main_sh_section. rewrite !app_length. cbn [length].
+    pose proof (lsz2_le_len ch D H Hcc). unfold sh in *. lia.
+Qed.
+
+Fixpoint dfuel (ns : list node) (trl : list str) : nat :=
+  match ns with
+  | [] => (2 * length trl + 1)%nat
+  | c :: r => (2 * length (lead_of c) + 2 + dfuel r trl)%nat
+  end.
+
+(* first token after a top-level container: not a comment *)
+Lemma ends_after_top c cs trl ts2 tE tail :
+  is_container c = true -> top_ok (c :: cs) trl = true -> forallb core2_node cs = true ->
+  Forall2 tmatch ts2 (nodes_sh2 ml idnum 0 cs ++ lead_sh 0 trl) -> tk tE = ENVELOPE_END ->
+  ends_block (ind_count 1) (ts2 ++ tE :: tail).
+Proof.
+  intros Hcont Htop Hcc Hts2 HE. cbn [top_ok] in Htop. rewrite Hcont in Htop. apply andb_prop in Htop. destruct Htop as [Hn _].
+  destruct cs as [|c2 cs'].
+  - destruct trl; [|discriminate Hn]. inversion Hts2; subst. cbn [app ends_block]. unfold ends_blockb. rewrite HE. reflexivity.
+  - cbn [forallb] in Hcc. apply andb_prop in Hcc. destruct Hcc as [Hc2 _].
+    cbn [nodes_sh2 flat_map] in Hts2. rewrite <- app_assoc in Hts2. unfold node_sh2 in Hts2.
+    destruct (lead_of c2); [|discriminate Hn]. cbn [lead_sh flat_map indent_sh app] in Hts2.
+    destruct (main_first c2 0%nat Hc2) as (s0 & body & Emain & Hs0). rewrite Emain in Hts2. rewrite <- app_comm_cons in Hts2.
+    inversion Hts2 as [|tJ ? ? ? [HJk _] _]; subst. cbn [app ends_block]. unfold ends_blockb.
+    destruct Hs0 as [E|E]; rewrite E in HJk; rewrite HJk; reflexivity.
+Qed.
+
+Lemma dloop_nodes2 trl ns :
+  forallb core2_node ns = true -> nums_ok2_l ns -> top_ok ns trl = true ->
+  forall f acc dups st ts tE tail,
+    (dfuel ns trl <= f)%nat ->
+    Forall2 tmatch ts (nodes_sh2 ml idnum 0 ns ++ lead_sh 0 trl) ->
+    ptoks st = ts ++ tE :: tail -> tk tE = ENVELOPE_END -> pbdepth st = 0 ->
+    exists st', dloop f [] acc dups st = POk (rev acc ++ ns, trl) st' /\ ptoks st' = tE :: tail /\ sext st st'.
+Proof.
+  induction ns as [|c cs IH]; intros Hcore Hnum Htop f acc dups st ts tE tail Hf Hts Hst HE Hdep.
+  - cbn [nodes_sh2 flat_map app] in Hts. cbn [dfuel] in Hf.
+    replace f with (2 * length trl + (f - 2 * length trl))%nat by lia.
+    destruct (dloop_lead trl [] (f - 2 * length trl)%nat acc dups st ts (tE :: tail) Hts Hst) as (sta & Ea & Hpa & Wa); [discriminate|].
+    rewrite Ea. cbn [app]. destruct (f - 2 * length trl)%nat as [|f1] eqn:Ef; [lia|].
+    rewrite dloop_eq. is_step Hpa HE. rewrite app_nil_r. exists sta. split; [reflexivity|]. split; [exact Hpa|exact Wa].
+  - cbn [forallb] in Hcore. apply andb_prop in Hcore. destruct Hcore as [Hcc Hccs]. destruct Hnum as [Hnc Hncs].
+    cbn [nodes_sh2 flat_map] in Hts. rewrite <- app_assoc in Hts. apply Forall2_app_inv_r in Hts. destruct Hts as (ts1 & ts2 & Hts1 & Hts2 & ->).
+    unfold node_sh2 in Hts1. cbn [indent_sh app] in Hts1. apply Forall2_app_inv_r in Hts1. destruct Hts1 as (tl & tm & Htl & Htm & ->).
+    destruct (main_first c 0%nat Hcc) as (s0 & body & Emain & Hs0). pose proof Htm as Htm'. rewrite Emain in Htm'.
+    inversion Htm' as [|tb ? tm' ? [Hbk _] _]; subst. clear Htm'. cbn [fst] in Hbk.
+    cbn [dfuel] in Hf.
+    replace f with (2 * length (lead_of c) + (f - 2 * length (lead_of c)))%nat by lia.
+    remember (f - 2 * length (lead_of c))%nat as f1 eqn:Ef1.
+    assert (Hf1 : (2 + dfuel cs trl <= f1)%nat) by lia. clear Ef1 Hf.
+    rewrite <- !app_assoc in Hst.
+    destruct (dloop_lead (lead_of c) [] f1 acc dups st tl ((tb :: tm') ++ ts2 ++ tE :: tail) Htl Hst) as (sta & Ea & Hpa & Wa); [discriminate|].
+    rewrite Ea. cbn [app] in Hpa |- *. clear Ea.
+    pose proof (sext_depth0 _ _ Wa Hdep) as Hda.
+    destruct f1 as [|f1]; [lia|].
+    rewrite dloop_eq.
+    assert (HK : tkind_eqb (tk tb) EOF = false /\ tkind_eqb (tk tb) ENVELOPE_END = false /\ tkind_eqb (tk tb) INDENT = false /\
+                 tkind_eqb (tk tb) COMMENT = false /\ tkind_eqb (tk tb) NEWLINE = false).
+    { destruct Hs0 as [E|E]; rewrite E in Hbk; rewrite Hbk; repeat split. }
+    repeat rewrite (is_hd _ _ _ _ Hpa). destruct HK as (-> & -> & -> & -> & ->). cbn [orb]. cbv zeta.
+    destruct (all_P_node2 c Hcc Hnc 0%nat (vfuel sta + fuel_of sta)%nat (lead_of c) sta (tb :: tm') (ts2 ++ tE :: tail))
+      as (st1 & tl1 & Hp & Hst1 & Htl1 & W1); [|exact Htm|rewrite <- app_comm_cons; exact Hpa|exact Hda| |].
+    { pose proof (sz2_le_len c 0%nat Hcc) as Hsz. pose proof (F2_length _ _ _ Htm) as Hlen.
+      unfold vfuel. rewrite (fuel_of_toks _ _ Hpa). cbn [length]. rewrite app_length. cbn [length] in Hlen. unfold sh in *. lia. }
+    { intros Hcont. exact (ends_after_top c cs trl ts2 tE tail Hcont Htop Hccs Hts2 HE). }
+    rewrite set_lead_id in Hp. rewrite Hp. cbn [bind].
+    assert (Htop' : top_ok cs trl = true) by (cbn [top_ok] in Htop; apply andb_prop in Htop; apply Htop).
+    set (dl := match node_key_line c (tline (cur sta)) with Some (k, l) => track_dup k l dups st1 | None => (dups, st1) end).
+    assert (Hdl : ptoks (snd dl) = tl1 ++ ts2 ++ tE :: tail).
+    { subst dl. destruct (node_key_line c _) as [[k l]|]; [rewrite track_dup_toks|]; exact Hst1. }
+    assert (Wdl : sext st (snd dl)).
+    { eapply sext_trans; [exact Wa|]. eapply sext_trans; [exact W1|].
+      subst dl. destruct (node_key_line c _) as [[k l]|]; [apply sext_track_dup|apply sext_refl]. }
+    destruct dl as [dups' st2] eqn:Edl. cbn [snd] in Hdl, Wdl.
+    pose proof (sext_depth0 _ _ Wdl Hdep) as Hd2.
+    destruct c as [k v lead tr|k tg chn lead|i k a chn lead|]; cbn [core2_node] in Hcc; try discriminate Hcc.
+    + destruct Htl1 as (tn & -> & Htn). cbn [app] in Hdl.
+      destruct f1 as [|f1]; [lia|]. rewrite dloop_eq. is_step Hdl Htn.
+      assert (Hne : exists t0 r0, ts2 ++ tE :: tail = t0 :: r0) by (destruct ts2; cbn [app]; eauto).
+      destruct Hne as (t0 & r0 & Hr). rewrite Hr in Hdl. pose proof (adv_toks _ _ _ _ Hdl) as H2. rewrite <- Hr in H2.
+      destruct (IH Hccs Hncs Htop' f1 (NAssign k v lead tr :: acc) dups' (adv st2) ts2 tE tail) as (st' & Hl & Hst' & W');
+        [lia|exact Hts2|exact H2|exact HE|rewrite adv_depth; exact Hd2|].
+      exists st'. split; [|split; [exact Hst'|eapply sext_trans; [exact Wdl|eapply sext_trans; [apply sext_adv|exact W']]]].
+      rewrite Hl. cbn [rev]. rewrite <- app_assoc. reflexivity.
+    + cbn [tail_ok] in Htl1. subst tl1. cbn [app] in Hdl.
+      destruct (IH Hccs Hncs Htop' f1 (NBlock k tg chn lead :: acc) dups' st2 ts2 tE tail) as (st' & Hl & Hst' & W');
+        [lia|exact Hts2|exact Hdl|exact HE|exact Hd2|].
+      exists st'. split; [|split; [exact Hst'|eapply sext_trans; [exact Wdl|exact W']]].
+      rewrite Hl. cbn [rev]. rewrite <- app_assoc. reflexivity.
+    + cbn [tail_ok] in Htl1. subst tl1. cbn [app] in Hdl.
+      destruct (IH Hccs Hncs Htop' f1 (NSection i k a chn lead :: acc) dups' st2 ts2 tE tail) as (st' & Hl & Hst' & W');
+        [lia|exact Hts2|exact Hdl|exact HE|exact Hd2|].
+      exists st'. split; [|split; [exact Hst'|eapply sext_trans; [exact Wdl|exact W']]].
+      rewrite Hl. cbn [rev]. rewrite <- app_assoc. reflexivity.
+Qed.
+
+(* ---- META block ------------------------------------------------------------------------------------------------------------ *)
+Notation mloop := (meta_loop numcanon holo_ok strict sp).
+
+Lemma mloop_eq f il hi m dups st :
+  mloop (S f) il hi m dups st =
+      if is EOF st || is ENVELOPE_END st then POk m st
+      else if is INDENT st then
+        if count_of (cur st) <? il then POk m st else mloop f il true m dups (adv st)
+      else if is NEWLINE st then mloop f il false m dups (adv st)
+      else if is COMMENT st then
+        if (0 <? il) && negb hi then POk m st else mloop f il hi m dups (adv st)
+      else if is IDENTIFIER st then
+        if (0 <? il) && negb hi then POk m st
+        else
+          let kt := cur st in
+          let key := text_of kt in
+          let st1 := adv st in
+          if is ASSIGN st1 then
+            do (v, st2) <- pv (vfuel st1) (adv st1);
+            let '(dups', st3) := track_dup key (tline kt) dups st2 in
+            mloop f il hi (dict_set m key (MV v)) dups' st3
+          else if is BLOCK st1 then
+            let st2 := skip_kinds [NEWLINE; COMMENT] (fuel_of st1) (adv st1) in
+            do (nested, st3) <-
+               (if is INDENT st2 then meta_nested_loop numcanon holo_ok strict sp (fuel_of st2 + fuel_of st2) (count_of (cur st2)) true [] [] (adv st2)
+                else POk [] st2);
+            let '(dups', st4) := track_dup key (tline kt) dups st3 in
+            mloop f il false (dict_set m key (MD nested)) dups' st4
+          else mloop f il hi m dups st1
+      else POk m st.
+Proof. reflexivity. Qed.
+
+Lemma str_eqb_sym a b : str_eqb a b = str_eqb b a.
+Proof.
+  destruct (str_eqb a b) eqn:E1, (str_eqb b a) eqn:E2; try reflexivity.
+  - apply str_eqb_eq in E1. subst. rewrite str_eqb_refl in E2. discriminate.
+  - apply str_eqb_eq in E2. subst. rewrite str_eqb_refl in E1. discriminate.
+Qed.
+Lemma dict_set_fresh {A} (m : list (str * A)) k v : str_in k (map fst m) = false -> dict_set m k v = m ++ [(k, v)].
+Proof.
+  induction m as [|[k' v'] m IH]; [reflexivity|]. cbn [map fst str_in dict_set]. intros H. apply Bool.orb_false_iff in H. destruct H as [H1 H2].
+  rewrite str_eqb_sym, H1. cbn [app]. rewrite (IH H2). reflexivity.
+Qed.
+Lemma str_in_app x a b : str_in x (a ++ b) = str_in x a || str_in x b.
+Proof. induction a as [|y a IH]; [reflexivity|]. cbn [app str_in]. rewrite IH, Bool.orb_assoc. reflexivity. Qed.
+Lemma nodupb_mid a k b : nodupb (a ++ k :: b) = true -> str_in k a = false /\ nodupb ((a ++ [k]) ++ b) = true.
+Proof.
+  intros H. split; [|rewrite <- app_assoc; exact H].
+  induction a as [|x a IH]; [reflexivity|]. cbn [app nodupb] in H. apply andb_prop in H. destruct H as [H1 H2].
+  cbn [str_in]. rewrite (IH H2), Bool.orb_false_r. apply Bool.negb_true_iff in H1. rewrite str_in_app in H1.
+  apply Bool.orb_false_iff in H1. destruct H1 as [_ H1]. cbn [str_in] in H1. apply Bool.orb_false_iff in H1. rewrite str_eqb_sym. apply H1.
+Qed.
+
+Definition field_sh (kv : str * metaval) : list sh :=
+  indent_sh 1 ++ [(IDENTIFIER, Some (TVText (fst kv))); (ASSIGN, None)] ++
+  (match snd kv with MV v => val_sh ml 1 v | MD _ => [] end) ++ [(NEWLINE, None)].
+Definition field_num_ok (kv : str * metaval) : Prop := match snd kv with MV v => num_ok_val v | MD _ => True end.
+Definition meta_end (rest : list token) : Prop :=
+  match rest with t :: _ :: _ => tk t <> INDENT /\ tk t <> NEWLINE | _ => False end.
+
+Lemma mloop_fields fields : forall m1 f hi dups st ts rest,
+  forallb meta_field_ok fields = true -> Forall field_num_ok fields ->
+  nodupb (map fst m1 ++ map fst fields) = true ->
+  (3 * length fields + 1 <= f)%nat ->
+  Forall2 tmatch ts (flat_map field_sh fields) -> ptoks st = ts ++ rest -> pbdepth st = 0 -> meta_end rest ->
+  (fields = [] -> hi = false) ->
+  exists st', mloop f (ind_count 1) hi m1 dups st = POk (m1 ++ fields) st' /\ ptoks st' = rest /\ sext st st'.
+Proof.
+  induction fields as [|[k mv] fs IH]; intros m1 f hi dups st ts rest Hok Hnum Hnd Hf Hts Hst Hdep Hend Hhi.
+  - inversion Hts; subst. cbn [app] in Hst. rewrite (Hhi eq_refl). destruct f as [|f]; [cbn in Hf; lia|].
+    destruct rest as [|t [|t2 r]]; [destruct Hend|destruct Hend|]. destruct Hend as [HnI HnN].
+    rewrite mloop_eq. repeat rewrite (is_hd _ _ _ _ Hst). change (0 <? ind_count 1) with true. cbn [andb negb]. rewrite app_nil_r.
+    exists st. split; [|split; [exact Hst|apply sext_refl]].
+    destruct (tk t); cbn [tkind_eqb tkind_code N.eqb Pos.eqb orb]; try reflexivity; congruence.
+  - cbn [forallb] in Hok. apply andb_prop in Hok. destruct Hok as [Hk Hoks].
+    inversion Hnum as [|? ? Hn1 Hns]; subst.
+    unfold meta_field_ok in Hk. unfold field_num_ok in Hn1. cbn [snd] in Hk, Hn1. destruct mv as [v|]; [|discriminate Hk].
+    cbn [flat_map] in Hts. apply Forall2_app_inv_r in Hts. destruct Hts as (ts1 & ts2 & Hts1 & Hts2 & ->).
+    unfold field_sh in Hts1. cbn [fst snd indent_sh app] in Hts1.
+    inversion Hts1 as [|tI ? ? ? [HIk HIv] Hb1]; subst. inversion Hb1 as [|ti ? ? ? [Hik Hiv] Hb2]; subst.
+    inversion Hb2 as [|ta ? ts3 ? [Hak _] Hb3]; subst. cbn [fst snd] in HIk, HIv, Hik, Hiv, Hak.
+    apply Forall2_app_inv_r in Hb3. destruct Hb3 as (tsv & tsn & Htsv & Htsn & ->).
+    inversion Htsn as [|tn ? ? ? [Hnk _] Hnil]; subst. inversion Hnil; subst. cbn [fst] in Hnk.
+    rewrite <- !app_comm_cons in Hst. rewrite <- !app_assoc in Hst. cbn [app] in Hst.
+    assert (Hne : exists t1 r1, tsv ++ tn :: ts2 ++ rest = t1 :: r1) by (destruct tsv; cbn [app]; eauto).
+    destruct Hne as (t1 & r1 & E1). rewrite E1 in Hst.
+    pose proof (adv_toks _ _ _ _ Hst) as H1. pose proof (adv_toks _ _ _ _ H1) as H2. pose proof (adv_toks _ _ _ _ H2) as H3.
+    rewrite <- E1 in H3.
+    cbn [length] in Hf. destruct f as [|[|[|f]]]; try lia.
+    (* INDENT *)
+    rewrite mloop_eq. is_step Hst HIk. rewrite (cur_hd _ _ _ Hst).
+    assert (HIc : count_of tI = ind_count 1) by (unfold count_of; rewrite HIv; reflexivity). rewrite HIc, N.ltb_irrefl.
+    (* KEY ASSIGN value *)
+    rewrite mloop_eq. is_step H1 Hik. change (0 <? ind_count 1) with true. cbn [andb negb]. cbv zeta.
+    is_step H2 Hak. rewrite (cur_hd _ _ _ H1).
+    assert (Hkey : text_of ti = k) by (unfold text_of; rewrite Hiv; reflexivity). rewrite Hkey.
+    destruct (pv_cval v 1%nat (vfuel (adv (adv st))) (adv (adv (adv st))) tsv tn (ts2 ++ rest) Hk Hn1) as (st5 & Hv & Hp5 & Hm5);
+      [unfold vfuel; rewrite (fuel_of_toks _ _ H2); cbn [length]; pose proof (f_equal (@length _) E1) as EL; rewrite app_length in EL; cbn [length] in EL; lia|exact Htsv|exact H3|rewrite Hnk; reflexivity|rewrite !adv_depth; exact Hdep|].
+    rewrite Hv. cbn [bind].
+    pose proof (track_dup_toks k (tline ti) dups st5) as Htd. pose proof (sext_track_dup k (tline ti) dups st5) as Wtd.
+    destruct (track_dup k (tline ti) dups st5) as [dups' st6]. cbn [snd] in Htd, Wtd. rewrite Hp5 in Htd.
+    cbn [map fst] in Hnd. apply nodupb_mid in Hnd. destruct Hnd as [Hfresh Hnd'].
+    rewrite (dict_set_fresh m1 k (MV v) Hfresh).
+    assert (W6 : sext st st6).
+    { eapply sext_trans; [|exact Wtd]. eapply sext_trans; [|exact (moved_sext _ _ _ Hm5)]. sadv. }
+    (* NEWLINE *)
+    assert (Hne2 : exists t2 r2, ts2 ++ rest = t2 :: r2).
+    { destruct rest as [|t [|t2 r]]; [destruct Hend|destruct Hend|]. destruct ts2; cbn [app]; eauto. }
+    destruct Hne2 as (t2 & r2 & E2). rewrite E2 in Htd.
+    rewrite mloop_eq. is_step Htd Hnk. pose proof (adv_toks _ _ _ _ Htd) as H7. rewrite <- E2 in H7.
+    destruct (IH (m1 ++ [(k, MV v)]) f false dups' (adv st6) ts2 rest Hoks Hns) as (st' & Hl & Hp' & W');
+      [rewrite map_app; exact Hnd'|lia|exact Hts2|exact H7|rewrite adv_depth; exact (sext_depth0 _ _ W6 Hdep)|exact Hend|reflexivity|].
+    rewrite Hl, <- app_assoc. exists st'. split; [reflexivity|]. split; [exact Hp'|].
+    eapply sext_trans; [exact W6|]. eapply sext_trans; [apply sext_adv|exact W'].
+Qed.
+
+Notation pmeta := (parse_meta_block numcanon holo_ok strict sp).
+
+Lemma fields_len m : (2 * length m <= length (flat_map field_sh m))%nat.
+Proof.
+  induction m as [|kv m IH]; [cbn; lia|]. cbn [flat_map length]. rewrite app_length. unfold field_sh at 1.
+  rewrite !app_length. cbn [length indent_sh]. lia.
+Qed.
+
+Lemma meta_sh_fields m : m <> [] ->
+  meta_sh ml m = [(IDENTIFIER, Some (TVText (lit "META"))); (BLOCK, None); (NEWLINE, None)] ++ flat_map field_sh m.
+Proof. destruct m; [congruence|reflexivity]. Qed.
+
+Lemma pmeta_read m st ts rest :
+  m <> [] -> forallb meta_field_ok m = true -> Forall field_num_ok m -> nodupb (map fst m) = true ->
+  Forall2 tmatch ts (meta_sh ml m) -> ptoks st = ts ++ rest -> pbdepth st = 0 -> meta_end rest ->
+  exists st', pmeta st = POk m st' /\ ptoks st' = rest /\ sext st st'.
+Proof.
+  intros Hne Hok Hnum Hnd Hts Hst Hdep Hend. rewrite (meta_sh_fields m Hne) in Hts. cbn [app] in Hts.
+  inversion Hts as [|tM ? ? ? [HMk _] Hb1]; subst. inversion Hb1 as [|tB ? ? ? [HBk _] Hb2]; subst.
+  inversion Hb2 as [|tN ? tsf ? [HNk _] Hb3]; subst. cbn [fst] in HMk, HBk, HNk.
+  rewrite <- !app_comm_cons in Hst.
+  assert (HI : exists tI r0, tsf = tI :: r0 /\ tk tI = INDENT /\ count_of tI = ind_count 1).
+  { destruct m as [|kv m']; [congruence|]. cbn [flat_map] in Hb3. apply Forall2_app_inv_r in Hb3. destruct Hb3 as (u1 & u2 & Hu1 & _ & ->).
+    unfold field_sh in Hu1. cbn [indent_sh app] in Hu1. inversion Hu1 as [|tI ? r1 ? [HIk HIv] _]; subst. cbn [fst snd] in HIk, HIv.
+    exists tI, (r1 ++ u2). split; [reflexivity|]. split; [exact HIk|]. unfold count_of. rewrite HIv. reflexivity. }
+  destruct HI as (tI & r0 & Etsf & HIk & HIc).
+  pose proof (adv_toks _ _ _ _ Hst) as H1.
+  assert (H1' : ptoks (adv st) = tB :: tN :: tI :: r0 ++ rest) by (rewrite H1, Etsf; reflexivity).
+  pose proof (adv_toks _ _ _ _ H1') as H2. pose proof (adv_toks _ _ _ _ H2) as H3.
+  unfold parse_meta_block, expect. is_step Hst HMk. cbn [bind]. is_step H1' HBk. cbn [bind].
+  rewrite (skip_one_nl [NEWLINE; COMMENT] _ _ _ _ (fuel_of (adv (adv st))) H2 HNk eq_refl);
+    [|rewrite HIk; reflexivity|rewrite (fuel_of_toks _ _ H2); cbn [length]; lia].
+  is_step H3 HIk. rewrite (cur_hd _ _ _ H3), HIc.
+  set (F := (fuel_of (adv (adv (adv st))) + fuel_of (adv (adv (adv st))))%nat).
+  assert (Hfold : mloop F (ind_count 1) true [] [] (adv (adv (adv (adv st)))) = mloop (S F) (ind_count 1) true [] [] (adv (adv (adv st)))).
+  { rewrite mloop_eq. is_step H3 HIk. rewrite (cur_hd _ _ _ H3), HIc, N.ltb_irrefl. reflexivity. }
+  rewrite Hfold.
+  destruct (mloop_fields m [] (S F) true [] (adv (adv (adv st))) tsf rest Hok Hnum Hnd) as (st' & Hl & Hp' & W');
+    [|exact Hb3|rewrite H3, Etsf; reflexivity|rewrite !adv_depth; exact Hdep|exact Hend|intros E; congruence|].
+  { subst F. rewrite (fuel_of_toks _ _ H3). pose proof (fields_len m) as HL. pose proof (F2_length _ _ _ Hb3) as HL2.
+    rewrite Etsf in HL2. cbn [length] in *. rewrite app_length. unfold sh in *. lia. }
+  exists st'. split; [exact Hl|]. split; [exact Hp'|]. eapply sext_trans; [|exact W']. sadv.
+Qed.
+
+(* ---- parse_document in three pieces ---------------------------------------------------------------------------------------- *)
+Definition doc_after_meta (name : str) (g : option str) (meta : list (str * metaval)) (st3 : pstate) : pres doc :=
+  let '(sep0, st4) :=
+    if is SEPARATOR st3 then (true, skip_kinds [NEWLINE] (fuel_of st3) (adv st3)) else (false, st3) in
+  do (r, st5) <- dloop (fuel_of st4 + fuel_of st4) [] [] [] st4;
+  let '(sections, trailing) := r in
+  let st6 := if is ENVELOPE_END st5 then adv st5 else st5 in
+  POk (mkDoc name g None sep0 meta sections trailing) st6.
+
+Definition doc_after_grammar (g : option str) (st1 : pstate) : pres doc :=
+  let '(name, st2) :=
+    if is ENVELOPE_START st1 then (text_of (cur st1), skip_kinds [NEWLINE] (fuel_of st1) (adv st1))
+    else (lit "INFERRED", st1) in
+  do (meta, st3) <-
+     (if is IDENTIFIER st2 && str_eqb (text_of (cur st2)) (lit "META") then
+        do (m, s') <- pmeta st2; POk m (skip_kinds [NEWLINE] (fuel_of s') s')
+      else POk [] st2);
+  doc_after_meta name g meta st3.
+
+Lemma parse_document_eq st0 :
+  parse_document numcanon holo_ok strict sp alpha st0 =
+  let st := skip_kinds [NEWLINE; COMMENT] (fuel_of st0) st0 in
+  let '(grammar, st1) :=
+    if is GRAMMAR_SENTINEL st then (Some (text_of (cur st)), skip_kinds [NEWLINE; COMMENT] (fuel_of st) (adv st))
+    else (None, st) in
+  doc_after_grammar grammar st1.
+Proof. reflexivity. Qed.
+
+Definition bfirst_ok (t : token) : Prop := kin (tk t) [ENVELOPE_END; COMMENT; SECTION; IDENTIFIER] = true.
+
+Lemma body_first2 ns trl tsb tE tail :
+  forallb core2_node ns = true -> Forall2 tmatch tsb (nodes_sh2 ml idnum 0 ns ++ lead_sh 0 trl) -> tk tE = ENVELOPE_END ->
+  exists t r, tsb ++ tE :: tail = t :: r /\ bfirst_ok t /\
+              (first_key_not_meta2 ns = true -> (tkind_eqb (tk t) IDENTIFIER && str_eqb (text_of t) (lit "META")) = false).
+Proof.
+  intros Hc Hts HE. unfold bfirst_ok. destruct ns as [|c cs].
+  - cbn [nodes_sh2 flat_map app] in Hts. destruct trl as [|x xs].
+    + inversion Hts; subst. exists tE, tail. rewrite HE. repeat split.
+    + rewrite lead_sh_cons in Hts. cbn [indent_sh app] in Hts. inversion Hts as [|t ? r1 ? [Hk _] _]; subst. cbn [fst] in Hk.
+      exists t, (r1 ++ tE :: tail). rewrite Hk. repeat split.
+  - cbn [forallb] in Hc. apply andb_prop in Hc. destruct Hc as [Hc _].
+    cbn [nodes_sh2 flat_map] in Hts. unfold node_sh2 at 1 in Hts. destruct (lead_of c) as [|x xs] eqn:El.
+    + cbn [lead_sh flat_map indent_sh app] in Hts.
+      destruct c as [k v lead tr|k tg chn lead|i k a chn lead|]; cbn [core2_node] in Hc; try discriminate Hc; cbn [lead_of] in El; subst lead;
+        cbn [main_sh app] in Hts; inversion Hts as [|t ? r1 ? [Hk Hv] _]; subst; cbn [fst snd] in Hk, Hv;
+        exists t, (r1 ++ tE :: tail); rewrite Hk; (split; [reflexivity|]); (split; [reflexivity|]); cbn [first_key_not_meta2]; intros Hm;
+        try reflexivity; unfold text_of; rewrite Hv; apply Bool.negb_true_iff; exact Hm.
+    + rewrite lead_sh_cons in Hts. cbn [indent_sh app] in Hts. inversion Hts as [|t ? r1 ? [Hk _] _]; subst. cbn [fst] in Hk.
+      exists t, (r1 ++ tE :: tail). rewrite Hk. repeat split.
+Qed.
+
+Lemma dfuel_le ns trl : forallb core2_node ns = true ->
+  (dfuel ns trl <= 1 + length (nodes_sh2 ml idnum 0 ns ++ lead_sh 0 trl))%nat.
+Proof.
+  induction ns as [|c cs IH]; intros Hc.
+  - cbn [dfuel nodes_sh2 flat_map app]. rewrite lead_sh_len_0. lia.
+  - cbn [forallb] in Hc. apply andb_prop in Hc. destruct Hc as [Hc Hcs]. specialize (IH Hcs).
+    cbn [dfuel nodes_sh2 flat_map]. rewrite <- app_assoc, app_length. unfold node_sh2 at 1. rewrite !app_length, !lead_sh_len_0.
+    pose proof (main_len_pos 0 c Hc). unfold nodes_sh2 in IH. rewrite app_length, lead_sh_len_0 in IH. cbn [indent_sh length]. unfold sh in *. lia.
+Qed.
+
+Definition sep_sh (b : bool) : list sh := if b then [(SEPARATOR, None); (NEWLINE, None)] else [].
+
+Lemma after_meta_read name g meta sep secs trl st3 tsp tsb tE tail :
+  forallb core2_node secs = true -> nums_ok2_l secs -> top_ok secs trl = true ->
+  Forall2 tmatch tsp (sep_sh sep) -> Forall2 tmatch tsb (nodes_sh2 ml idnum 0 secs ++ lead_sh 0 trl) ->
+  tk tE = ENVELOPE_END -> tail <> [] -> ptoks st3 = tsp ++ tsb ++ tE :: tail -> pbdepth st3 = 0 ->
+  exists st', doc_after_meta name g meta st3 = POk (mkDoc name g None sep meta secs trl) st' /\ sext st3 st'.
+Proof.
+  intros Hcc Hnum Htop Htsp Htsb HE Htail Hst Hdep.
+  destruct (body_first2 secs trl tsb tE tail Hcc Htsb HE) as (tb & rb & Ebody & Hbf & _).
+  assert (Hb1 : kin (tk tb) [NEWLINE] = false /\ tkind_eqb (tk tb) SEPARATOR = false).
+  { unfold bfirst_ok in Hbf. destruct (tk tb); try discriminate Hbf; split; reflexivity. }
+  destruct Hb1 as [Hb1 Hb2].
+  pose proof (dfuel_le secs trl Hcc) as Hdf. pose proof (F2_length _ _ _ Htsb) as Hlen.
+  unfold doc_after_meta. destruct sep; cbn [sep_sh] in Htsp.
+  - inversion Htsp as [|tP ? ? ? [HPk _] Hp1]; subst. inversion Hp1 as [|tN2 ? ? ? [HN2k _] Hp2]; subst. inversion Hp2; subst.
+    cbn [fst] in HPk, HN2k. cbn [app] in Hst. rewrite Ebody in Hst.
+    is_step Hst HPk. pose proof (adv_toks _ _ _ _ Hst) as H1.
+    rewrite (skip_one_nl [NEWLINE] _ _ _ _ (fuel_of st3) H1 HN2k eq_refl Hb1); [|rewrite (fuel_of_toks _ _ Hst); cbn [length]; lia].
+    pose proof (adv_toks _ _ _ _ H1) as H2. rewrite <- Ebody in H2.
+    destruct (dloop_nodes2 trl secs Hcc Hnum Htop (fuel_of (adv (adv st3)) + fuel_of (adv (adv st3)))%nat [] [] (adv (adv st3)) tsb tE tail)
+      as (st5 & Hl & Hst5 & W5); [rewrite (fuel_of_toks _ _ H2), app_length; unfold sh in *; lia|exact Htsb|exact H2|exact HE|rewrite !adv_depth; exact Hdep|].
+    rewrite Hl. cbn [bind rev app]. eexists. split; [reflexivity|].
+    eapply sext_trans; [|destruct (is ENVELOPE_END st5); [apply sext_adv|apply sext_refl]].
+    eapply sext_trans; [|exact W5]. sadv.
+  - inversion Htsp; subst. cbn [app] in Hst.
+    assert (Hs : is SEPARATOR st3 = false) by (rewrite Ebody in Hst; rewrite (is_hd _ _ _ _ Hst); exact Hb2).
+    rewrite Hs.
+    destruct (dloop_nodes2 trl secs Hcc Hnum Htop (fuel_of st3 + fuel_of st3)%nat [] [] st3 tsb tE tail)
+      as (st5 & Hl & Hst5 & W5); [rewrite (fuel_of_toks _ _ Hst), app_length; unfold sh in *; lia|exact Htsb|exact Hst|exact HE|exact Hdep|].
+    rewrite Hl. cbn [bind rev app]. eexists. split; [reflexivity|].
+    eapply sext_trans; [exact W5|destruct (is ENVELOPE_END st5); [apply sext_adv|apply sext_refl]].
+Qed.
+
+(* the warnings only grow by ADVISORY records (5 duplicate_key, 9 pattern_autoquote -- the same set as in TokRound.v: a list of
+   scalars opened at bracket depth 0 has depth 1 < nesting_threshold, so 6 deep_nesting cannot occur, and scalar items add no
+   record) and the bracket depth is restored *)
+Definition wext2 (st st' : pstate) : Prop := wext st st' /\ pbdepth st' = pbdepth st.
+
+Lemma after_grammar_read g name meta sep secs trl st1 tS tN tsm tsp tsb tE tail :
+  forallb core2_node secs = true -> nums_ok2_l secs -> top_ok secs trl = true ->
+  forallb meta_field_ok meta = true -> Forall field_num_ok meta -> nodupb (map fst meta) = true ->
+  (negb (is_nil meta) || sep || first_key_not_meta2 secs) = true ->
+  tmatch tS (ENVELOPE_START, Some (TVText name)) -> tk tN = NEWLINE ->
+  Forall2 tmatch tsm (meta_sh ml meta) -> Forall2 tmatch tsp (sep_sh sep) ->
+  Forall2 tmatch tsb (nodes_sh2 ml idnum 0 secs ++ lead_sh 0 trl) -> tk tE = ENVELOPE_END -> tail <> [] ->
+  ptoks st1 = tS :: tN :: tsm ++ tsp ++ tsb ++ tE :: tail -> pbdepth st1 = 0 ->
+  exists st', doc_after_grammar g st1 = POk (mkDoc name g None sep meta secs trl) st' /\ sext st1 st'.
+Proof.
+  intros Hcc Hnum Htop Hmok Hmnum Hmnd Hfirst [HSk HSv] HNk Htsm Htsp Htsb HE Htail Hst Hdep. cbn [fst snd] in HSk, HSv.
+  destruct (body_first2 secs trl tsb tE tail Hcc Htsb HE) as (tb & rb & Ebody & Hbf & Hnm).
+  (* the rest after the META block: SEPARATOR or the first body token *)
+  assert (Hrest : exists tx rx, tsp ++ tsb ++ tE :: tail = tx :: rx /\ rx <> [] /\ kin (tk tx) [NEWLINE; INDENT] = false /\
+                                ((sep = true \/ first_key_not_meta2 secs = true) ->
+                                 (tkind_eqb (tk tx) IDENTIFIER && str_eqb (text_of tx) (lit "META")) = false)).
+  { destruct sep; cbn [sep_sh] in Htsp.
+    - inversion Htsp as [|tP ? ? ? [HPk _] Hp1]; subst. cbn [fst] in HPk. eexists; eexists. split; [reflexivity|]. split; [inversion Hp1; discriminate|].
+      rewrite HPk. split; [reflexivity|]. intros _. reflexivity.
+    - inversion Htsp; subst. cbn [app]. rewrite Ebody. exists tb, rb. split; [reflexivity|].
+      split; [destruct tsb; cbn [app] in Ebody; inversion Ebody; subst; [exact Htail|destruct tsb; discriminate]|].
+      split; [unfold bfirst_ok in Hbf; destruct (tk tb); try discriminate Hbf; reflexivity|].
+      intros [E|E]; [discriminate E|exact (Hnm E)]. }
+  destruct Hrest as (tx & rx & Erest & Hrx & Hkx & Hxm).
+  unfold doc_after_grammar. is_step Hst HSk. rewrite (cur_hd _ _ _ Hst).
+  assert (Hn : text_of tS = name) by (unfold text_of; rewrite HSv; reflexivity). rewrite Hn. clear Hn.
+  pose proof (adv_toks _ _ _ _ Hst) as H1.
+  destruct meta as [|kv0 meta'].
+  - cbn [meta_sh] in Htsm. inversion Htsm; subst. cbn [app] in H1. rewrite Erest in H1.
+    rewrite (skip_one_nl [NEWLINE] _ _ _ _ (fuel_of st1) H1 HNk eq_refl); [|destruct (tk tx); try discriminate Hkx; reflexivity|rewrite (fuel_of_toks _ _ Hst); cbn [length]; lia].
+    pose proof (adv_toks _ _ _ _ H1) as H2.
+    rewrite (is_hd _ _ _ IDENTIFIER H2), (cur_hd _ _ _ H2).
+    rewrite Hxm; [|cbn [is_nil negb orb] in Hfirst; apply Bool.orb_true_iff in Hfirst; exact Hfirst].
+    cbn [bind]. rewrite <- Erest in H2.
+    destruct (after_meta_read name g [] sep secs trl (adv (adv st1)) tsp tsb tE tail Hcc Hnum Htop Htsp Htsb HE Htail H2) as (st' & Hr & W');
+      [rewrite !adv_depth; exact Hdep|].
+    exists st'. split; [exact Hr|]. eapply sext_trans; [|exact W']. sadv.
+  - set (meta := kv0 :: meta') in *.
+    assert (Hne : meta <> []) by discriminate.
+    rewrite (meta_sh_fields meta Hne) in Htsm. cbn [app] in Htsm.
+    inversion Htsm as [|tM ? tsm' ? [HMk HMv] Hm1]; subst. cbn [fst snd] in HMk, HMv.
+    rewrite <- app_comm_cons in H1.
+    rewrite (skip_one_nl [NEWLINE] _ _ _ _ (fuel_of st1) H1 HNk eq_refl); [|rewrite HMk; reflexivity|rewrite (fuel_of_toks _ _ Hst); cbn [length]; lia].
+    pose proof (adv_toks _ _ _ _ H1) as H2.
+    rewrite (is_hd _ _ _ IDENTIFIER H2), (cur_hd _ _ _ H2), HMk. unfold text_of at 1. rewrite HMv.
+    change (tkind_eqb IDENTIFIER IDENTIFIER && str_eqb (lit "META") (lit "META")) with true. cbv iota.
+    destruct (pmeta_read meta (adv (adv st1)) (tM :: tsm') (tsp ++ tsb ++ tE :: tail) Hne Hmok Hmnum Hmnd) as (s' & Hpm & Hps' & Ws');
+      [rewrite (meta_sh_fields meta Hne); constructor; [split; [exact HMk|exact HMv]|exact Hm1]
+      |rewrite H2; reflexivity|rewrite !adv_depth; exact Hdep
+      |rewrite Erest; destruct rx; [congruence|]; split; intros E; rewrite E in Hkx; discriminate Hkx|].
+    rewrite Hpm. cbn [bind].
+    rewrite Erest in Hps'. rewrite (skip_stop _ _ _ _ _ Hps'); [|destruct (tk tx); try discriminate Hkx; reflexivity].
+    rewrite <- Erest in Hps'.
+    assert (W2 : sext st1 s') by (eapply sext_trans; [|exact Ws']; sadv).
+    destruct (after_meta_read name g meta sep secs trl s' tsp tsb tE tail Hcc Hnum Htop Htsp Htsb HE Htail Hps') as (st' & Hr & W');
+      [exact (sext_depth0 _ _ W2 Hdep)|].
+    exists st'. split; [exact Hr|]. eapply sext_trans; [exact W2|exact W'].
+Qed.
+
+Theorem parse_core2_doc d :
+  core2_doc d = true -> nums_ok2_l (dsections d) -> Forall field_num_ok (dmeta d) ->
+  forall st0 ts tail, tail <> [] -> pbdepth st0 = 0 ->
+    Forall2 tmatch ts (doc2_sh ml idnum d) -> ptoks st0 = ts ++ tail ->
+    exists st', parse_document numcanon holo_ok strict sp alpha st0 = POk d st' /\ wext2 st0 st'.
+Proof.
+  destruct d as [name gr fr sep meta secs trl]. unfold core2_doc. cbn [dfront dmeta dtrailing dsections dsep].
+  destruct fr; [discriminate|].
+  intros Hcore Hnum Hmnum st0 ts tail Htail Hdep Hts Hst0.
+  apply andb_prop in Hcore. destruct Hcore as [Hcore Hfirst]. apply andb_prop in Hcore. destruct Hcore as [Hcore Hmnd].
+  apply andb_prop in Hcore. destruct Hcore as [Hcore Hmok]. apply andb_prop in Hcore. destruct Hcore as [Hcc Htop].
+  unfold doc2_sh in Hts. cbn [dgrammar dname dsep dsections dmeta dtrailing] in Hts.
+  apply Forall2_app_inv_r in Hts. destruct Hts as (tsg & ts' & Htsg & Hts & ->).
+  change ([(ENVELOPE_START, Some (TVText name)); (NEWLINE, None)] ++ ?x) with
+         ((ENVELOPE_START, Some (TVText name)) :: (NEWLINE, None) :: x) in Hts.
+  inversion Hts as [|tS ? ? ? HS Hts1]; subst. inversion Hts1 as [|tN ? ts2 ? [HNk _] Hts2]; subst. cbn [fst] in HNk.
+  apply Forall2_app_inv_r in Hts2. destruct Hts2 as (tsm & ts3 & Htsm & Hts3 & ->).
+  apply Forall2_app_inv_r in Hts3. destruct Hts3 as (tsp & ts4 & Htsp & Hts4 & ->).
+  rewrite app_assoc in Hts4.
+  apply Forall2_app_inv_r in Hts4. destruct Hts4 as (tsb & tse & Htsb & Htse & ->).
+  inversion Htse as [|tE ? ? ? [HEk _] Hnil]; subst. inversion Hnil; subst. cbn [fst] in HEk.
+  assert (Hmain : forall st1 g, ptoks st1 = tS :: tN :: tsm ++ tsp ++ tsb ++ tE :: tail -> pbdepth st1 = 0 ->
+            exists st', doc_after_grammar g st1 = POk (mkDoc name g None sep meta secs trl) st' /\ sext st1 st').
+  { intros st1 g Hst1 Hd1.
+    exact (after_grammar_read g name meta sep secs trl st1 tS tN tsm tsp tsb tE tail Hcc Hnum Htop Hmok Hmnum Hmnd Hfirst HS HNk Htsm Htsp Htsb HEk Htail Hst1 Hd1). }
+  assert (Hst0' : ptoks st0 = tsg ++ tS :: tN :: tsm ++ tsp ++ tsb ++ tE :: tail).
+  { rewrite Hst0. rewrite <- !app_assoc. cbn [app]. rewrite <- !app_assoc. reflexivity. }
+  clear Hst0. rename Hst0' into Hst0.
+  rewrite parse_document_eq. cbv zeta.
+  destruct HS as [HSk HSv]. cbn [fst snd] in HSk, HSv.
+  destruct gr as [g|].
+  - inversion Htsg as [|tG ? ? ? [HGk HGv] Hg1]; subst. inversion Hg1 as [|tGn ? ? ? [HGnk _] Hg2]; subst. inversion Hg2; subst.
+    cbn [fst snd] in HGk, HGv, HGnk. cbn [app] in Hst0.
+    rewrite (skip_stop _ _ _ _ _ Hst0); [|rewrite HGk; reflexivity].
+    is_step Hst0 HGk. rewrite (cur_hd _ _ _ Hst0).
+    assert (Hg : text_of tG = g) by (unfold text_of; rewrite HGv; reflexivity). rewrite Hg.
+    pose proof (adv_toks _ _ _ _ Hst0) as H1.
+    rewrite (skip_one_nl [NEWLINE; COMMENT] _ _ _ _ (fuel_of st0) H1 HGnk eq_refl);
+      [|rewrite HSk; reflexivity|rewrite (fuel_of_toks _ _ Hst0); cbn [length]; lia].
+    pose proof (adv_toks _ _ _ _ H1) as H2.
+    destruct (Hmain _ (Some g) H2) as (st' & Hr & W'); [rewrite !adv_depth; exact Hdep|].
+    exists st'. split; [exact Hr|]. eapply sext_trans; [|exact W']. sadv.
+  - inversion Htsg; subst. cbn [app] in Hst0.
+    rewrite (skip_stop _ _ _ _ _ Hst0); [|rewrite HSk; reflexivity].
+    is_step Hst0 HSk.
+    exact (Hmain _ None Hst0 Hdep).
+Qed.
+
 End Core2.
+
+(* ---- the four stages as separate statements ---------------------------------------------------------------------------------- *)
+(* stage 1: comments only (scalar values, blocks; no list, no section, no META) *)
+Fixpoint s1_node (n : node) : bool :=
+  match n with
+  | NAssign _ v _ _ => is_scalar v
+  | NBlock _ _ ch _ => forallb s1_node ch
+  | _ => false
+  end.
+(* stage 2: + lists of scalars (no section, no META) *)
+Fixpoint s2_node (n : node) : bool :=
+  match n with
+  | NAssign _ _ _ _ => true
+  | NBlock _ _ ch _ => forallb s2_node ch
+  | _ => false
+  end.
+Definition core2_doc_s1 (d : doc) : bool := core2_doc d && forallb s1_node (dsections d) && is_nil (dmeta d).
+Definition core2_doc_s2 (d : doc) : bool := core2_doc d && forallb s2_node (dsections d) && is_nil (dmeta d).
+(* stage 3: + section markers (no META) *)
+Definition core2_doc_s3 (d : doc) : bool := core2_doc d && is_nil (dmeta d).
+(* stage 4 = core2_doc *)
+
+Section Stages.
+Variable numcanon : str -> option (bool * str).
+Variable holo_ok : str -> bool.
+Variable strict : bool.
+Variable sp alpha : N -> bool.
+Variable ml : list value -> bool.
+Variable idnum : str -> bool.
+
+Theorem parse_core2_stage3 d :
+  core2_doc_s3 d = true -> nums_ok2_l numcanon idnum (dsections d) ->
+  forall st0 ts tail, tail <> [] -> pbdepth st0 = 0 ->
+    Forall2 tmatch ts (doc2_sh ml idnum d) -> ptoks st0 = ts ++ tail ->
+    exists st', parse_document numcanon holo_ok strict sp alpha st0 = POk d st' /\ wext2 st0 st'.
+Proof.
+  unfold core2_doc_s3. intros H Hnum. apply andb_prop in H. destruct H as [Hc Hm].
+  apply (parse_core2_doc numcanon holo_ok strict sp alpha ml idnum d Hc Hnum).
+  destruct (dmeta d); [constructor|discriminate Hm].
+Qed.
+
+Theorem parse_core2_stage2 d :
+  core2_doc_s2 d = true -> nums_ok2_l numcanon idnum (dsections d) ->
+  forall st0 ts tail, tail <> [] -> pbdepth st0 = 0 ->
+    Forall2 tmatch ts (doc2_sh ml idnum d) -> ptoks st0 = ts ++ tail ->
+    exists st', parse_document numcanon holo_ok strict sp alpha st0 = POk d st' /\ wext2 st0 st'.
+Proof.
+  unfold core2_doc_s2. intros H. apply andb_prop in H. destruct H as [H Hm]. apply andb_prop in H. destruct H as [Hc _].
+  apply parse_core2_stage3. unfold core2_doc_s3. rewrite Hc, Hm. reflexivity.
+Qed.
+
+Theorem parse_core2_stage1 d :
+  core2_doc_s1 d = true -> nums_ok2_l numcanon idnum (dsections d) ->
+  forall st0 ts tail, tail <> [] -> pbdepth st0 = 0 ->
+    Forall2 tmatch ts (doc2_sh ml idnum d) -> ptoks st0 = ts ++ tail ->
+    exists st', parse_document numcanon holo_ok strict sp alpha st0 = POk d st' /\ wext2 st0 st'.
+Proof.
+  unfold core2_doc_s1. intros H. apply andb_prop in H. destruct H as [H Hm]. apply andb_prop in H. destruct H as [Hc _].
+  apply parse_core2_stage3. unfold core2_doc_s3. rewrite Hc, Hm. reflexivity.
+Qed.
+
+Definition parse_core2_stage4 := parse_core2_doc numcanon holo_ok strict sp alpha ml idnum.
+End Stages.
